@@ -125,14 +125,17 @@ FullOf(cores) ==
 Hash(seed, k, a, i, j, b) ==
     (seed * 31 + k * 17 + a * 7 + i * 3 + j * 5 + b * 11 + a * i + b * j + k * b * 2 + seed * a) % 7
 
-\* kind: "real" | "complex" | "pos" (non-negative real) | "def" (rank deficient:
-\*        does not depend on the right rank index)
+\* kind: "real" | "complex" | "pos" (non-negative real) | "def"/"cdef" (rank deficient:
+\*        does not depend on the right rank index) | "zero"/"zmid"/"zfirst" (zero cores)
 FillEntry(kind, seed, k, a, i, j, b) ==
     CASE kind = "real"    -> <<Hash(seed, k, a, i, j, b) - 3, 0>>
       [] kind = "pos"     -> <<(Hash(seed, k, a, i, j, b) % 4), 0>>
       [] kind = "complex" -> <<Hash(seed, k, a, i, j, b) - 3, (Hash(seed + 3, k + 1, b, j, i, a) % 5) - 2>>
       [] kind = "def"     -> <<Hash(seed, k, a, i, j, 1) - 3, 0>>
       [] kind = "cdef"    -> <<Hash(seed, k, a, i, j, 1) - 3, (Hash(seed + 3, k + 1, 1, j, i, a) % 5) - 2>>
+      [] kind = "zero"    -> CZ                                        \* the zero train
+      [] kind = "zmid"    -> IF k = 2 THEN CZ ELSE <<Hash(seed, k, a, i, j, b) - 3, 0>>   \* one zero core
+      [] kind = "zfirst"  -> IF k = 1 THEN CZ ELSE <<Hash(seed, k, a, i, j, b) - 3, 0>>
 
 FillCore(kind, seed, k, r0, m, n, r1) ==
     [a \in 1..r0 |-> [i \in 1..m |-> [j \in 1..n |-> [b \in 1..r1 |->
